@@ -37,7 +37,7 @@ def rejection_ops(rng, L):
     nonload = [n for n in names if n not in loads]
     muxes = [n for n in names if kinds[n] == "PMux"]
     with_children = [n for n in names if L["children"][n] and kinds[n] not in ("Source", "PMux")]
-    free = [n for n in hist.NAME_POOL + ["Z1", "Z2"] if n not in names and n not in rails]
+    free = [n for n in hist.NAME_POOL + ["Z%d" % k for k in range(1, 40)] if n not in names and n not in rails]  # never empty
     fresh = lambda: rng.choice(free)
     ce = lambda kind, name: hist.comp_entry(rng, kind, name)
     out = []
